@@ -187,6 +187,18 @@ def prefer_interior(e, margin=1e-7):
     e.prefer = [z3.substitute(c, (s, s * (1 + margin))) for c in e.pc] + [z3.substitute(c, (s, s * (1 - margin))) for c in e.pc]
 
 
+def perp_extent(poly, rot):
+    """extent of the polygon perpendicular to rows of direction (cos rot, sin rot)"""
+    v = [-math.sin(rot) * x + math.cos(rot) * y for x, y in poly]
+    return max(v) - min(v)
+
+
+def declare_extent(e, poly, rot):
+    """named constant for the known-finding predicate (a lot narrower than one row spacing)"""
+    ext = perp_extent(poly, rot)
+    e.real('perp_extent', ext, ext)
+
+
 def thick(e, width=1e-9):
     """prune slivers: keep the path only if its spacing region contains two points `width` apart (relative).  Regions
     thinner than that arise where the code's own extent (after atan/sin round-off) and the oracle's differ by an ulp."""
@@ -282,6 +294,7 @@ def make_gen_fn(poly, rot, lattice=False, twin=False):
         s = Spacing(z3.Real('s'))
         e.inputs['s'] = s.t
         e.assume((s >= LO) & (s <= HI))
+        declare_extent(e, poly, rot)
         arm(poly)
         holes = RW.gen_borehole_config(Shapes(poly), s, s, rotate=rot)
         e.notes['n'] = len(holes)
@@ -378,6 +391,7 @@ def make_shift_fn(poly, rot, shift):
         s = Spacing(z3.Real('s'))
         e.inputs['s'] = s.t
         e.assume((s >= LO) & (s <= HI))
+        declare_extent(e, poly, rot)
         arm(poly, 2)
         a = RW.gen_borehole_config(Shapes(poly), s, s, rotate=rot)
         poly2 = [(x + shift[0], y + shift[1]) for x, y in poly]
@@ -549,6 +563,7 @@ POLYS = {
     'rect_cw': [(5.0, 5.0), (5.0, 45.0), (55.0, 45.0), (55.0, 5.0)],
     'tri': [(5.0, 5.0), (65.0, 10.0), (30.0, 55.0)],
     'tri_axes': [(0.0, 20.0), (40.0, 0.0), (50.0, 45.0)],
+    'strip60x20': [(0.0, 0.0), (60.0, 0.0), (60.0, 20.0), (0.0, 20.0)],   # narrower than the larger spacings: exhibits F-C14-lot-narrower-than-spacing
     'hexagon': [(20.0, 0.0), (50.0, 0.0), (65.0, 26.0), (50.0, 52.0), (20.0, 52.0), (5.0, 26.0)],
 }
 ROTS = [0.0, 0.3, -0.6, math.pi / 4, -1.2]
